@@ -27,7 +27,10 @@ Fixpoint nodupz (l : list Z) : bool :=
 (* tc_fragile: some quantitative association is exactly equal to thresh_corr and pandas' float for
    it is above / not above the threshold depending on the column order (rounding noise): the
    implementation may decide either way *)
-Record tcase := mkT { tc_in : tin; tc_out : list nat; tc_fragile : bool }.
+(* tc_cs: colsample < 1 — shuffled order of the features (oracle: random.shuffle of the real run),
+   chunks, number of samples, and the samples the implementation was observed to measure *)
+Record csinfo := mkCs { cs_shuffled : list nat; cs_chunks : nat; cs_k : nat; cs_observed : list (list nat) }.
+Record tcase := mkT { tc_in : tin; tc_out : list nat; tc_fragile : bool; tc_cs : option csinfo }.
 
 Inductive ierr := IOk | IAssert | IInternal.
 
@@ -40,9 +43,32 @@ Record c14case := mkCase {
   c_unchanged : bool }.        (* deep copies of X and y equal after the call *)
 
 (* ---- agreement with the model ------------------------------------------------------------ *)
+Definition select_tc (tc : tcase) : res (list nat) :=
+  match tc_cs tc with
+  | None => select_type (tc_in tc)
+  | Some cs => select_type_cs (tc_in tc) (cs_shuffled cs) (cs_chunks cs) (cs_k cs)
+  end.
+
+Fixpoint select_tcs (ts : list tcase) : res (list (list nat)) :=
+  match ts with
+  | [] => Ok []
+  | t :: rest => do a <- select_tc t; do b <- select_tcs rest; Ok (a :: b)
+  end.
+
+Definition select_case (c : c14case) : res (list (list nat)) :=
+  if (0 <? c_nbest c) && (c_nbest c <=? c_nfeat c + 1) then select_tcs (c_types c) else AssertErr.
+
+(* the samples the implementation measured are the model's samples *)
+Definition samples_agree (tc : tcase) : bool :=
+  match tc_cs tc with
+  | None => true
+  | Some cs => list_eqb (list_eqb Nat.eqb) (col_samples (cs_chunks cs) (cs_k cs) (cs_shuffled cs)) (cs_observed cs)
+  end.
+
 Definition agree (c : c14case) : bool :=
-  match select_all (c_nbest c) (c_nfeat c) (map tc_in (c_types c)), c_err c with
+  match select_case c, c_err c with
   | Ok outs, IOk => list_eqb (list_eqb Nat.eqb) outs (map tc_out (c_types c))
+                    && forallb samples_agree (c_types c)
   | AssertErr, IAssert => true
   | InternalErr, IInternal => true
   | _, _ => false
